@@ -69,6 +69,9 @@ def to_str(e) -> str:
     t = e[0]
     if t == "n":
         n, d = e[1], e[2]
+        if len(e) > 3 and e[3] == "float":
+            x = repr(n / d)                  # written as a float literal (0.5, 1.5): a Python float on the other side
+            return x if n >= 0 else f"({x})"
         if d == 1:
             return str(n) if n >= 0 else f"(-{-n})"
         return f"({n}/{d})" if n >= 0 else f"(-{-n}/{d})"
